@@ -167,22 +167,6 @@ def ip_routing(F, rep, body):
     for b, t in uns:
         rep.ob("ip-table", is_addr_of_net(t["args"][0]), site(f, b), "the wildcard test is on the bound address ip_net.addr()", skey(F, f, "wildcard-operand"))
         utests.append(call_result_tests(f, b, family="bool")[0])
-    for b, i, rv in returns_of(f):
-        if b not in S:
-            continue
-        if i is None:
-            ok = call_matches(rv, EQ)
-            why = "result of ==" if ok else "result of %s" % callee_names(rv)[0]
-        elif rv["k"] == "use" and rv["o"]["k"] == "const":
-            v = str(rv["o"].get("v"))
-            if "true" in v:
-                ok = any(requires(f, b, ts) for ts in utests)
-                why = "`true` only for a wildcard-bound socket"
-            else:
-                ok, why = True, "false"
-        else:
-            ok, why = False, "computed value (%s)" % rv["k"]
-        rep.ob("ip-table", ok, site(f, b), "with a source: answer is %s" % why, skey(F, f, "src-answer"))
     # without a source address
     other = [(b, t) for b, t in calls_in(f, N) if not any(call_matches(t, r) for r in (IP, CONT, LL, SCOPE))]
     rep.ob("ip-table", not other, site(f, other[0][0] if other else sb), "without a source the destination is related to the socket only through contains()/link-local scope; other operations: %s" % sorted({callee_names(t)[0] for b, t in other}), skey(F, f, "dst-relations"))
@@ -210,22 +194,74 @@ def ip_routing(F, rep, body):
             call = any(x and all(y[0] == "call" and re.search(SCOPE, y[1]) for y in x) for x in both)
             if fld and call:
                 scope_eq.append(ts)
-    for b, i, rv in returns_of(f):
-        if b not in N:
-            continue
-        if i is None:
-            ok = call_matches(rv, CONT)
-            why = "result of contains()" if ok else "result of %s" % callee_names(rv)[0]
-        elif rv["k"] == "use" and rv["o"]["k"] == "const":
-            v = str(rv["o"].get("v"))
-            if "true" in v:
-                ok = any(requires(f, b, ts) for ts in ctests) or (any(requires(f, b, ts) for ts in lls) and any(requires(f, b, ts) for ts in scope_eq))
-                why = "`true` only if the net contains the destination, or link-local destination on the socket's scope"
-            else:
-                ok, why = True, "false"
-        else:
-            ok, why = False, "computed value (%s)" % rv["k"]
-        rep.ob("ip-table", ok, site(f, b), "without a source: answer is %s" % why, skey(F, f, "dst-answer"))
+    # ---- the answer as a truth function over (source?, socket family, address family) x atoms
+    from .. import booltab
+    from ..booltab import Unsupported
+    cfg = F.adt(IPC + "Config")
+    cfg_d = {v["name"]: int(v["discr"]) for v in cfg["variants"]}
+
+    def place_src(pl):
+        """exact source of a (projected) place: (kind, index, fields)"""
+        base = copy_sources(f, pl["l"])
+        flds = tuple(e[2] if e[2] else str(e[1]) for e in pl.get("p", []) if e[0] == "f")
+        if base == {("agg", "tuple")} and flds and flds[0].isdigit():
+            for b_, i_, st in f.stmts():
+                if st["k"] == "a" and st["lhs"] == {"l": pl["l"]} and st["rv"]["k"] == "agg":
+                    o = st["rv"]["ops"][int(flds[0])]
+                    if o["k"] in ("copy", "move"):
+                        x = copy_sources(f, o["p"]["l"])
+                        return {(y[0], y[1], tuple(y[2]) + tuple(e[2] if e[2] else str(e[1]) for e in o["p"].get("p", []) if e[0] == "f") + flds[1:]) for y in x}
+        return {(y[0], y[1], tuple(y[2]) + flds) if len(y) == 3 else y for y in base}
+    try:
+        paths = booltab.extract(f)
+        bad = []
+        import itertools
+        for has_src, sock_v6, addr_v6 in itertools.product((False, True), repeat=3):
+            for unspec, eq, contains, ll, scope in itertools.product((False, True), repeat=5):
+                def value_of(a):
+                    if a.kind == "switch":
+                        l = op_local(a.args[0])
+                        for st in f.blocks[a.bb]["s"]:
+                            if st["k"] == "a" and st["lhs"]["l"] == l and st["rv"]["k"] == "discr":
+                                x = place_src(st["rv"]["p"])
+                                vals = [int(z) for z, _ in f.blocks[a.bb]["t"]["targets"]]
+                                pick = lambda w: w if w in vals else "otherwise"
+                                if x == {("arg", 2, ())}:
+                                    return pick(1 if has_src else 0)
+                                if x == {("arg", 1, ())}:
+                                    return pick(cfg_d["V6"] if sock_v6 else cfg_d["V4"])
+                                if x == {("arg", 2, ("0",))} or x == {("arg", 3, ())}:
+                                    return pick(1 if addr_v6 else 0)
+                        raise Unsupported("branch at bb%d" % a.bb)
+                    if a.kind == "call":
+                        if call_matches(a.term, UNSPEC):
+                            return unspec
+                        if call_matches(a.term, EQ):
+                            return eq == a.name.endswith("::eq")
+                        if call_matches(a.term, CONT):
+                            return contains
+                        if call_matches(a.term, LL):
+                            return ll
+                        raise Unsupported("test %s at bb%d" % (a.name, a.bb))
+                    if a.kind == "cmp" and a.name in ("Eq", "Ne"):
+                        both = [srcs(a.args[0]), srcs(a.args[1])]
+                        if any(x == {("arg", 1, ("scope_id",))} for x in both) and any(x and all(y[0] == "call" and re.search(SCOPE, y[1]) for y in x) for x in both):
+                            return scope == (a.name == "Eq")
+                    raise Unsupported("%s %s at bb%d" % (a.kind, a.name, a.bb))
+                got = booltab.evaluate(paths, value_of)
+                if sock_v6 != addr_v6:
+                    want = False
+                elif has_src:
+                    want = unspec or eq
+                elif not sock_v6:
+                    want = contains
+                else:
+                    want = contains or (ll and scope)
+                if got != want:
+                    bad.append("%s, socket %s, address %s, wildcard=%s eq=%s contains=%s link-local=%s scope-eq=%s -> %s" % ("with source" if has_src else "no source", "v6" if sock_v6 else "v4", "v6" if addr_v6 else "v4", unspec, eq, contains, ll, scope, got))
+        rep.ob("ip-table", not bad, site(f), "is_valid_send_addr as a truth function (256 valuations): with a source: same family and (wildcard or bound address == source); without: same family and (net contains destination, or for v6 link-local destination on the socket's scope); mismatches: %s" % bad[:3], skey(F, f, "send-addr-function"))
+    except Unsupported as e:
+        rep.ob("ip-table", False, site(f), "is_valid_send_addr could not be extracted as a truth function (unrecognised idiom, fails closed): %s" % e, skey(F, f, "send-addr-function"))
     # ---- Config::is_valid_default_addr depends on is_default only
     g = get_fn(F, rep, IPC + "Config::is_valid_default_addr")
     n_def = 0
@@ -326,8 +362,8 @@ def ip_routing(F, rep, body):
     bd = [x for x in F.tree_of(IPC + "IpTransports::bind")]
     bf = max(bd, key=lambda x: len(x.blocks))
     rep.fn(bf)
-    sorts = find_calls(bf, regex=r"slice::.*sort_by_key$|sort_by_key$")
-    rep.exact("ip-order", "sort_by_key calls in IpTransports::bind", len(sorts), 2)
+    sorts = find_calls(bf, regex=r"sort_by_key$|sort_unstable_by_key$|sort_by$|sort_unstable_by$")
+    rep.exact("ip-order", "sort calls in IpTransports::bind", len(sorts), 2)
     for b, t in sorts:
         cl = str(bf.locals[op_base(t["args"][1])])
         ks = [c for c in F.tree(bf) if c is not bf and c.kind == "Closure" and (":%d:" % c.line) in cl]
@@ -336,8 +372,34 @@ def ip_routing(F, rep, body):
             names = [callee_names(ct)[0] for cb, ct in c.calls()]
             rev = any(rv["k"] == "agg" and "Reverse" in str(rv.get("adt")) for cb, i, rv in [(x, y, z["rv"]) for x, y, z in c.stmts() if z["k"] == "a"])
             ok = ok or (any(n.endswith("Config::prefix_len") for n in names) and rev)
+            # comparator idiom: |a, b| b.prefix_len().cmp(&a.prefix_len())
+            cmps = [(cb, ct) for cb, ct in c.calls() if call_matches(ct, r"^core::cmp::Ord::cmp$|^core::cmp::PartialOrd::partial_cmp$")]
+            if len(cmps) == 1 and sum(1 for n in names if n.endswith("Config::prefix_len")) == 2:
+                def which(o):
+                    dc = def_call(c, ref_of_local(c, op_base(o)))
+                    if dc is None or not call_matches(dc[1], r"Config::prefix_len$"):
+                        return None
+                    x = copy_sources(c, op_base(dc[1]["args"][0]))
+                    return {y[1] for y in x if y[0] == "arg"}
+                l_, r_ = which(cmps[0][1]["args"][0]), which(cmps[0][1]["args"][1])
+                ok = ok or (l_ == {3} and r_ == {2})      # (b, a): descending
         rep.ob("ip-order", ok, site(bf, b), "bound sockets are sorted by Reverse(prefix_len): longest prefix is found first", skey(F, bf, "sort-desc"))
     poss = find_calls(bf, regex=r"Iterator::position$")
     rep.exact("ip-order", "default index computations", len(poss), 2)
     for b, t in poss:
         rep.ob("ip-order", all(bf.dominates(sb_, b) for sb_, _ in sorts), site(bf, b), "the default-route index is computed after sorting (it indexes the sorted list)", skey(F, bf, "index-after-sort"))
+
+
+def ref_of_local(f, l):
+    """local behind `&x` / `&*r` chains (or l itself)"""
+    for _ in range(6):
+        if l is None:
+            return None
+        nxt = None
+        for b, i, st in f.stmts():
+            if st["k"] == "a" and st["lhs"] == {"l": l} and st["rv"]["k"] == "ref" and all(e[0] == "deref" for e in st["rv"]["p"].get("p", [])):
+                nxt = st["rv"]["p"]["l"]
+        if nxt is None:
+            return l
+        l = nxt
+    return l
